@@ -120,6 +120,7 @@ def variants(repo):
     bu = "pandapower/build_bus.py"
     V = Variant
     return [
+        V("magnetising branch ignores the lv tap ratio", bb, in_function("_calc_y_from_dataframe", lambda s: s.replace(" / np.square(vn_trafo_lv / vn_lv_kv)", "")), "y-from-df"),
         V("ideal phase shifter percent form without direction", bb, in_function("_calc_tap_from_dataframe", replace_once("(direction * 2 * np.rad2deg(np.arcsin(tap_diff[mask_ideal] *", "(2 * np.rad2deg(np.arcsin(tap_diff[mask_ideal] *")), "SHIFT-DIRECTION"),
         V("wye delta only for rows with susceptance", bb, in_function("_wye_delta", replace_once("tidx = (g != 0) | (b != 0)", "tidx = b != 0")), "converted-rows"),
         V("asymmetry guard tests r twice", "pandapower/pypower/makeYbus.py", replace_once("if any(branch[:, BR_R_ASYM]) or any(branch[:, BR_X_ASYM]):", "if any(branch[:, BR_R_ASYM]) or any(branch[:, BR_R_ASYM]):"), "DUP-OPERAND"),
